@@ -11,6 +11,7 @@
   t/Q² terms are covered by the coefficient-by-coefficient correspondence and the N-version oracle.
 -/
 import Gen.BmkSymR
+import Proofs.Bridge
 import Mathlib.Tactic.FieldSimp
 import Mathlib.Tactic.Linarith
 import Mathlib.Tactic.Positivity
@@ -47,10 +48,9 @@ theorem TDVCS2LP_not_bilinear_BM10ex :
 /-- the twist-two 𝒞^DVCS_unp of BM10 is BMK's (66) -/
 theorem CCALDVCSunp_BM10_eq_BMK (c : Consts) (m : CFFs) (pt : Pt) :
     BM10.CCALDVCSunp_im0_leff0_reff0 c m pt = BMK.CCALDVCSunp c m pt := by
-  simp only [BM10.CCALDVCSunp_im0_leff0_reff0, BMK.CCALDVCSunp, Gep.Cx.mk_re, Gep.Cx.mk_im, Gep.Cx.add_re,
+  bridge_simp [BM10.CCALDVCSunp_im0_leff0_reff0, BMK.CCALDVCSunp, Gep.Cx.mk_re, Gep.Cx.mk_im, Gep.Cx.add_re,
     Gep.Cx.add_im, Gep.Cx.sub_re, Gep.Cx.sub_im, Gep.Cx.neg_re, Gep.Cx.neg_im, Gep.Cx.mul_re, Gep.Cx.mul_im,
     Gep.Cx.smul_re, Gep.Cx.smul_im, Gep.Cx.divR_re, Gep.Cx.divR_im, Gep.Cx.ofReal_re, Gep.Cx.ofReal_im]
-  ring
 
 /-- for the eight CFFs the property quantifies over (no effective twist-three CFFs), the squared-DVCS
     terms of BM10 and BM10tw2 are exactly the one of hotfixedBMK, for every Q² -/
@@ -58,7 +58,7 @@ theorem TDVCS2unp_BM10_eq_hotfixed (c : Consts) (m : CFFs) (pt : Pt) :
     FS_BM10_TDVCS2unp c (noEff m) pt = FS_hotfixedBMK_TDVCS2unp c (noEff m) pt ∧
     FS_BM10tw2_TDVCS2unp c (noEff m) pt = FS_hotfixedBMK_TDVCS2unp c (noEff m) pt := by
   have key : BM10.TDVCS2unp c (noEff m) pt = hotfixedBMK.TDVCS2unp c (noEff m) pt := by
-    simp only [BM10.TDVCS2unp, hotfixedBMK.TDVCS2unp, BM10.cDVCS0unp, hotfixedBMK.cDVCS0unp,
+    bridge_simp [BM10.TDVCS2unp, hotfixedBMK.TDVCS2unp, BM10.cDVCS0unp, hotfixedBMK.cDVCS0unp,
       BM10_cDVCS1unp_noEff, BM10_sDVCS1unp_noEff, BM10_CCALDVCSunp_im0_leff1_reff1_noEff,
       CCALDVCSunp_BM10_eq_BMK, mul_zero, zero_mul, add_zero]
   exact ⟨key, key⟩
@@ -70,8 +70,18 @@ theorem TDVCS2unp_hotfixed_vs_BMK (c : Consts) (m : CFFs) (pt : Pt) (he : 1 + pt
     FS_hotfixedBMK_TDVCS2unp c m pt =
       FS_BMK_TDVCS2unp c m pt *
         (1 - pt.eps2 * ((2 - 2 * pt.y + pt.y ^ 2 / 2) / ((1 + pt.eps2) * (2 - 2 * pt.y + pt.y ^ 2)))) := by
-  simp only [FS_hotfixedBMK_TDVCS2unp, FS_BMK_TDVCS2unp, hotfixedBMK.TDVCS2unp, BMK.TDVCS2unp, hotfixedBMK.cDVCS0unp,
-    BMK.cDVCS0unp, hotfixedBMK.CDVCSunpPP, BMK.CDVCSunpPP]
+  -- bridging steps (generated definition = hand-written form, up to field arithmetic: Proofs/Bridge.lean)
+  have hTh : hotfixedBMK.TDVCS2unp c m pt =
+      BMK.PreFacDVCS c m pt * (hotfixedBMK.CDVCSunpPP c m pt * BMK.CCALDVCSunp c m pt) := by
+    bridge_simp [hotfixedBMK.TDVCS2unp, hotfixedBMK.cDVCS0unp]
+  have hTb : BMK.TDVCS2unp c m pt = BMK.PreFacDVCS c m pt * (BMK.CDVCSunpPP c m pt * BMK.CCALDVCSunp c m pt) := by
+    bridge_simp [BMK.TDVCS2unp, BMK.cDVCS0unp]
+  have hPh : hotfixedBMK.CDVCSunpPP c m pt =
+      2 * ((2 - 2 * pt.y + pt.y ^ 2 + pt.eps2 * pt.y ^ 2 / 2) / (1 + pt.eps2)) := by
+    bridge_simp [hotfixedBMK.CDVCSunpPP]
+  have hPb : BMK.CDVCSunpPP c m pt = 2 * (2 - 2 * pt.y + pt.y ^ 2) := by
+    bridge_simp [BMK.CDVCSunpPP]
+  simp only [FS_hotfixedBMK_TDVCS2unp, FS_BMK_TDVCS2unp, hTh, hTb, hPh, hPb]
   have hA : 2 - 2 * pt.y + pt.y ^ 2 / 2 = (2 - 2 * pt.y + pt.y ^ 2) - pt.y ^ 2 / 2 := by ring
   rw [hA]
   generalize BMK.PreFacDVCS c m pt = P
